@@ -42,12 +42,131 @@ HOWS = ["call", "value", "yielded", "yielded_value"]
 def plan(tier, seed, build, scale):
     n = int((48 if tier == "quick" else 1000) * scale)
     per = max(1, n // 16) if tier == "quick" else max(1, n // 48)
-    units = []
+    units = [{"mode": "special", "cases": [0, 1]}]
     a = 0
     while a < n:
         units.append({"cases": [a, min(n, a + per)], "pairs": 0 if tier == "quick" else 40})
         a += per
     return units
+
+
+def run_special_classes(res, c):
+    """Failures whose CLASS is special to generators (StopIteration and subclasses, StopAsyncIteration) or otherwise
+    unusual (KeyError, an Exception subclass with a required constructor argument), delivered at a yield of every
+    shape by every kind of non-task future, and caught right there: the body must get the very instance."""
+    import asynq
+    from asynq import ConstFuture, Future
+    from asynq import asynq as A
+    from asynq.futures import ErrorFuture
+    from .. import harness
+
+    class MyStop(StopIteration):
+        pass
+
+    class Needy(Exception):
+        def __init__(self, a, b):
+            Exception.__init__(self, a, b)
+
+    makers = {
+        "StopIteration": lambda: StopIteration("exhausted"),
+        "StopIteration-subclass": lambda: MyStop(1, 2),
+        "StopAsyncIteration": lambda: StopAsyncIteration(),
+        "KeyError": lambda: KeyError("k"),
+        "two-argument-exception": lambda: Needy(1, 2),
+    }
+    shapes = ["single", "tuple1", "tuple2-first", "tuple2-last", "tuple3", "tuple4-middle", "list3", "dict", "nested-tuple3-in-list", "tuple3-in-dict", "tuple5-nested-tuple3"]
+    sources = ["ErrorFuture", "lazy", "item"]
+    for cname, mk in sorted(makers.items()):
+        for source in sources:
+            for shape in shapes:
+                asynq.scheduler.reset()
+                rt = harness.HarnessRT({"nodes": [], "kinds": 1})
+                err = mk()
+                seen = []
+
+                class FailingBatch(asynq.BatchBase):
+                    def _try_switch_active_batch(self):
+                        pass
+
+                    def _flush(self):
+                        for it in self.items:
+                            if getattr(it, "fails", False):
+                                it.set_error(err)
+                            else:
+                                it.set_value("ok")
+
+                    def _cancel(self):
+                        pass
+
+                class Item(asynq.BatchItemBase):
+                    fails = False
+
+                fb = FailingBatch()
+
+                def failing():
+                    if source == "ErrorFuture":
+                        return ErrorFuture(err)
+                    if source == "lazy":
+                        def prov():
+                            raise err
+
+                        return Future(prov)
+                    it = Item(fb)
+                    it.fails = True
+                    return it
+
+                def ok():
+                    return Item(fb)
+
+                def build():
+                    f = failing()
+                    if shape == "single":
+                        return f
+                    if shape == "tuple1":
+                        return (f,)
+                    if shape == "tuple2-first":
+                        return (f, ok())
+                    if shape == "tuple2-last":
+                        return (ConstFuture(1), f)
+                    if shape == "tuple3":
+                        return (ok(), f, ConstFuture(2))
+                    if shape == "tuple4-middle":
+                        return (ConstFuture(0), ok(), f, ok())
+                    if shape == "list3":
+                        return [ok(), f, ConstFuture(2)]
+                    if shape == "dict":
+                        return {"a": ok(), "b": f}
+                    if shape == "nested-tuple3-in-list":
+                        return [ConstFuture(1), (ok(), ConstFuture(5), f)]
+                    if shape == "tuple3-in-dict":
+                        return {"a": (ConstFuture(1), f, ok())}
+                    return (ConstFuture(1), ok(), ConstFuture(2), (ConstFuture(3), f, ok()), None)
+
+                @A()
+                def body():
+                    try:
+                        yield build()
+                    except BaseException as e:  # caught in the very frame that yielded
+                        seen.append(e)
+                        return "caught"
+                    return "no failure delivered"
+
+                try:
+                    out = ("val", body())
+                except BaseException as e:
+                    out = ("exc", type(e).__name__, str(e)[:80])
+                res["evaluations"] += 1
+                c["special_exception_class_deliveries"] = c.get("special_exception_class_deliveries", 0) + 1
+                bad = None
+                if out != ("val", "caught"):
+                    bad = ("failure-not-delivered-at-the-yield", {"outcome": repr(out)[:160]})
+                elif seen[0] is not err:
+                    bad = ("another-exception-delivered-instead-of-the-instance", {"delivered": repr(seen[0])[:120], "cause": repr(getattr(seen[0], "__cause__", None))[:80]})
+                if bad is not None and len(res["violations"]) < 8:
+                    res["violations"].append(
+                        {"oracle": bad[0], "mechanism": bad[0] + "/" + cname, "detail": dict(bad[1], exception_class=cname, source=source, shape=shape), "case": {"mode": "special", "cases": [0, 1]}}
+                    )
+                res["nontrivial"].append(hash(("special", cname, source, shape)) & 0xFFFFFFFFFFFF)
 
 
 def run_unit(unit, progress):
@@ -56,6 +175,10 @@ def run_unit(unit, progress):
     res = tl.new_result()
     c = res["counters"]
     reached = {}
+    if unit.get("mode") == "special":
+        progress(0)
+        run_special_classes(res, c)
+        return res
 
     def inc(k, n=1):
         c[k] = c.get(k, 0) + n
